@@ -890,6 +890,21 @@ def m_map_values(it, args, fr, callee):
     return IterV(iter(items), 'map.values', exact=len(items))
 
 
+@model('Option::as_deref', 'std::option::Option::as_deref', 'Option::as_deref_mut', 'std::option::Option::as_deref_mut')
+def m_opt_as_deref(it, args, fr, callee):
+    o = _deref_arg(args[0])
+    if o.variant != 1:
+        return none()
+    v = o.fields[0]
+    if type(v) is VecV:
+        return some(Slice(v.buf, 0, len(v.buf)))
+    if type(v) is BoxV:
+        return some(Ref(v.cell, 0))
+    if type(v) is StrV:
+        return some(v)
+    raise Unsupported('Option::as_deref of %r' % (v,))
+
+
 @model('Option::is_none', 'std::option::Option::is_none')
 def m_opt_is_none(it, args, fr, callee):
     return Sc('bool', int(_deref_arg(args[0]).variant == 0))
@@ -1479,6 +1494,20 @@ def to_iter(it, x, fr):
         # impl IntoIterator for Result<T, E>: yields the Ok value, nothing for Err
         return IterV(iter(list(x.fields) if x.variant == 0 else []), 'result.into_iter')
     raise Unsupported('not iterable: %r' % (x,))
+
+
+@model('std::iter::from_fn', 'core::iter::from_fn', 'iter::from_fn')
+def m_iter_from_fn(it, args, fr, callee):
+    f = args[0]
+
+    def gen():
+        for _ in range(100000):
+            r = it.call_value(f, [], fr)
+            if r.variant != 1:
+                return
+            yield r.fields[0]
+        raise Unsupported('iter::from_fn: more than 100000 items')
+    return IterV(gen(), 'from_fn')
 
 
 def range_iter(it, r, ref):
@@ -2414,6 +2443,12 @@ def m_key_data(it, args, fr, callee):
     while type(k) is Ref:
         k = k.cont[k.key]
     return copy_val(k.fields[0])
+
+
+@tmodel('DefaultKey', 'Default', 'default')
+def m_defaultkey_default(it, args, fr, callee):
+    # slotmap: Key::null() = KeyData { idx: u32::MAX, version: 1 }
+    return Agg('DefaultKey', None, [Agg('KeyData', None, [Sc('u32', 0xffffffff), Sc('u32', 1)])])
 
 
 @tmodel('DefaultKey', 'From', 'from')
